@@ -74,12 +74,11 @@ Definition denote1 (e : envt) (u : dunit) : str :=
   end.
 Definition denote (e : envt) (us : list dunit) : str := flat_map (denote1 e) us.
 
-Definition newlines (s : str) : N := N.of_nat (length (filter (fun c => Byte.eqb c nl) s)).
+Definition newlines (s : str) : N := count_nl s.
 
-(* line breaks the scanner counts inside a double-quoted string: raw newlines and continuations
-   (a newline inside ${...} is not counted: see DESIGN, C06) *)
+(* line breaks inside a double-quoted string: raw newlines, continuations, newlines inside ${...} *)
 Definition unit_lines (u : dunit) : N :=
-  match u with UChar c => if Byte.eqb c nl then 1 else 0 | UCont => 1 | _ => 0 end.
+  match u with UChar c => if Byte.eqb c nl then 1 else 0 | UCont => 1 | UEnv body => newlines body | _ => 0 end.
 Definition lines_of (us : list dunit) : N := fold_right (fun u a => unit_lines u + a) 0 us.
 
 (* well-formedness of one unit, and of a unit w.r.t. the byte that follows it *)
